@@ -30,10 +30,33 @@ def gen_c03(rnd, sid):
                 exc_handler=True, run_empty=True, deliver_at=[])
 
 
+def gen_c03_chain(rnd, sid):
+    """a chain of nested loops; the same sources are registered on several enclosing levels; signals for them are emitted from the innermost handlers"""
+    depth = rnd.randint(2, 5)
+    handlers = []
+    # class Uk's handler runs at level k: registers sources, opens level k+1 (seed of class U(k+1)); the innermost one emits signals and closes
+    for k in range(depth):
+        acts = []
+        for src in range(3):
+            if rnd.random() < 0.5: acts.append(["reg_source", ["src", src]])
+        if k < depth - 1:
+            acts.append(["new_loop", "U%d" % (k + 1), 0, sid.next()])
+            acts += [["enq", "U%d" % (depth), 0, rnd.choice([None, ["src", rnd.randrange(3)]]), sid.next()] for _ in range(rnd.randint(0, 2))]
+        else:
+            acts += [["enq", "U%d" % depth, rnd.choice([0, 0, 1]), rnd.choice([None, ["src", 0], ["src", 1], ["src", 2]]), sid.next()] for _ in range(rnd.randint(1, 4))]
+            acts += [["proc", None]] if rnd.random() < 0.3 else []
+            acts.append(["close_loop"])
+        handlers.append(dict(cls="U%d" % k, hid=len(handlers), data=None, scripts=[acts]))
+    # the emitted class: its handler sometimes closes the level it runs in
+    handlers.append(dict(cls="U%d" % depth, hid=len(handlers), data=None, scripts=[([["close_loop"]] if rnd.random() < 0.25 else []) for _ in range(12)]))
+    return dict(op="machine", mode="c03", width=80, screens=[], handlers=handlers, init=[["enq", "U0", 0, None, sid.next()]], stdin=[], quit_cb=None, quit_screen=None,
+                exc_handler=True, run_empty=True, deliver_at=[])
+
+
 def generate(rnd, tier):
     n = 500 if tier == "quick" else 6000
     sid = SidCounter()
-    cases = [gen_c03(rnd, sid) for _ in range(n)] + [gen_case(rnd, "loop", sid) for _ in range(n // 2)] + [gen_case(rnd, "app", sid) for _ in range(n // 4)]
+    cases = [gen_c03(rnd, sid) for _ in range(n)] + [gen_c03_chain(rnd, sid) for _ in range(n)] + [gen_case(rnd, "loop", sid) for _ in range(n // 2)] + [gen_case(rnd, "app", sid) for _ in range(n // 4)]
     return [with_cc(c) for c in cases]
 
 
